@@ -7,6 +7,9 @@ sys.path.insert(0, os.path.join(os.path.dirname(os.path.dirname(os.path.abspath(
 os.environ["VERIF_NO_MOVE_NORMALISATION"] = "1"
 import facts
 out = {}
+sigs = {}
+adts = {}
+import mir
 for cfg in ("default", "ext"):
     main, clvmr, info = facts.produce(cfg)
     d = json.load(open(main))
@@ -16,6 +19,11 @@ for cfg in ("default", "ext"):
     names |= {s["path"] for s in d.get("statics", []) if "path" in s}
     names |= set(d.get("hir", {}).keys())
     out[d["crate"]] = sorted(names)
+    sg = sigs.setdefault(d["crate"], {})
+    sg.update(mir.item_signatures(d))
+    adts.setdefault(d["crate"], {}).update(mir.adt_shapes(d))
 p = os.path.join(os.path.dirname(os.path.dirname(os.path.abspath(__file__))), "tables", "symbols_baseline.json")
-json.dump(out, open(p, "w"), indent=0)
+out["__sigs__"] = sigs
+out["__adts__"] = adts
+json.dump(out, open(p, "w"), indent=0, sort_keys=True)
 print({k: len(v) for k, v in out.items()})
